@@ -519,7 +519,7 @@ PROPS = {
         ],
     },
     'C18': {
-        'v_units': ['lineread'],
+        'v_units': ['lineread', 'replloop'],
         'k_units': ['readchar'],
         'level': 'other',
         'explanation': (
@@ -535,19 +535,24 @@ PROPS = {
             '(yash-builtin/src/read/input.rs) on a scripted descriptor holding any byte string of <= 4 bytes before end of input, with every '
             'read served by a symbolic number of bytes between 1 and what was asked for: the character returned is the decoding of the '
             'shortest prefix that is a complete UTF-8 character whatever the chunking, exactly that prefix has been consumed (what follows stays '
-            'in the input), a truncated or invalid sequence is an error. NOT decided: that the lexer asks for a new line only when its buffer is exhausted '
-            'and the read-eval loop runs each command before the next line is read (async parser / runner code), other readers of the same '
+            'in the input), a truncated or invalid sequence is an error. Unit replloop (Verus) puts the read-eval loop itself (runner.rs '
+            'read_eval_loop_impl and its two entry points) under contract against a monitor automaton of its opaque calls: reading + parsing a command '
+            'line and running a command alternate strictly - a line is parsed only when the previous command (or parser error) is over and lets the '
+            'shell go on, a command runs exactly once, right after it was parsed -, every line is parsed in the mode the CURRENT options give, the '
+            'loop ends at the end of input or at the first divert, handed on unchanged, and with status 0 when nothing but the end of input was read. '
+            'NOT decided: that the lexer asks the input for a new line only when its buffer is exhausted (inside the opaque parse call), other readers of the same '
             'descriptor across processes, the echo/prompt decorators, the text conversion (lossy UTF-8, assumed).'),
         'trusted_base': ['Verus 0.2026.09.13 + Z3', 'Kani 0.68.0 + CBMC 6.11', '/verif/tools/vextract.py, /verif/tools/kunit.py'],
         'assumptions': [
             'model trait Read (synchronous, &mut self, ghost streams consumed / at_eof per descriptor): read fills a beginning of the buffer, never more than its length, 0 at end of input, nothing on error; await points dropped',
             'assumed contract of core::slice::from_mut (a one-element slice over the place); String::from_utf8(..).unwrap_or_else(lossy) is a helper with an uninterpreted result (lossy_text)',
             'Input::next_line of FdReader2 is checked as an inherent method with the same body (impl header replaced); Context and std::io::Error are placeholders',
+            'unit replloop: reading + parsing one command line (the Parser::config() chain), run_command and the handler of parser errors are opaque calls driving a ghost monitor; the lexer is reduced to ghost data (the option generation its mode was set from, whether its buffer was thrown away since the last parse); the RefCell<&mut Env> parameter is checked as &mut Env (borrow() / borrow_mut() are the reference itself; rule sig-tokens); preconditions: a fresh monitor; await points dropped; termination not claimed',
             'unit readchar (Kani, bounded): scripted system in the harness; one call of read_char; inputs of <= 4 bytes; core::str::from_utf8 is the oracle for a complete character',
         ],
     },
     'C10': {
-        'v_units': ['errexit', 'condframe', 'assignstatus', 'simplecmd', 'errhandle', 'fullcompound'],
+        'v_units': ['errexit', 'condframe', 'assignstatus', 'simplecmd', 'errhandle', 'fullcompound', 'replloop'],
         'k_units': ['errexit'],
         'level': 'other',
         'explanation': (
@@ -574,7 +579,11 @@ PROPS = {
             'otherwise, an interrupted expansion hands on its interrupt; a redirection error only sets $? to 2 and execution continues; each error '
             'is reported exactly once. Unit fullcompound (Verus, compound_command.rs): a failed redirection of a compound command is reported once, '
             'the command does not run, and errexit is consulted once, AFTER the report, with the status the handler left - its answer is the '
-            'result -, while a successful one leaves errexit to the command. NOT decided: which other commands consult '
+            'result -, while a successful one leaves errexit to the command. Unit replloop (Verus, runner.rs): what the read-eval loop does with the '
+            'diverts the handlers and commands produce - a NON-INTERACTIVE shell ends on every divert, the interrupt of a syntax or expansion error '
+            'included (read_eval_loop), an INTERACTIVE one goes on after an interrupt of a command and after a SYNTAX error only (not after a read '
+            'error), having taken the status the interrupt carries and thrown away the rest of the input line (interactive_read_eval_loop). '
+            'NOT decided: which other commands consult '
             'apply_errexit, and the consequences-of-shell-errors table (special built-in errors, redirection errors, assignment errors, '
             'expansion errors): all of that is async interpreter code outside both tools.'),
         'trusted_base': ['Verus 0.2026.09.13 + Z3', 'Kani 0.68.0 + CBMC 6.11', '/verif/tools/vextract.py, /verif/tools/kunit.py'],
@@ -584,6 +593,7 @@ PROPS = {
             'Kani: RandomState::new is stubbed with fixed keys (std asks the OS for random hash keys; no hash table is consulted by the functions under contract)',
             'unit errhandle: the error types are reduced to what the handlers inspect; printing the report is an opaque call; Env reduced to the exit status and a flag for errexit_is_applicable (unit errexit); ExitStatus::ERROR = 2, READ_ERROR = 128',
             'unit fullcompound: RedirGuard::perform_redirs, executing the compound command, the error handler, apply_errexit and the tracer are opaque calls observed by a ghost monitor; RAII of the redirection guard assumed as a whole (external_body RedirGuard::new); await points dropped',
+            'unit replloop: see C18 - parse, run_command and the parser-error handler are opaque calls driving a ghost monitor; RefCell<&mut Env> checked as &mut Env',
             'unit assignstatus: performing one assignment is an opaque call recorded in a ghost log; Option::or and Option::as_deref_mut (helper) have assumed contracts; await points dropped',
             'unit condframe: RAII of the frame guard is ASSUMED as a whole in the contract of Env::push_frame (external_body: while the guard lives the frame is on top; when it goes away one frame has been popped and the rest is as the guard left it) - Verus does not model destructors; what is verified is the destructor body (pops one frame) and the identical two-line body of Stack::push; running commands (List::execute, execute_commands_in_pipeline) is an opaque call that records (what, stack, status before/after, result) in a ghost log; Env reduced to exit_status / options / stack / log; `slice.iter().peekable()` is a hand-written index model; `&mut guard` (DerefMut) is checked as `guard.env`; an explicit drop(guard) is checked as the end of the guard\'s life; `?` on ControlFlow through assumed contracts; await points dropped; the option test of noexec is an assumed two-option model',
         ],
